@@ -903,11 +903,11 @@ func (c1 floatConst) binaryOp(op ast.OperatorType, c2 constant) (constant, error
 	return nil, errInvalidOperation
 }
 
-// maxFloatExp bounds the binary exponent of floating-point constants. Without
-// a bound a few lines of squarings reach exponents of billions of bits, an
-// addition of two such constants shifts a mantissa by that many bits, and an
-// overflow to infinity makes a later Inf - Inf panic in the big package.
-const maxFloatExp = 1 << 24
+// maxFloatExp bounds the binary exponent of floating-point constants to the
+// range of big.Float, as the gc compiler does (1e646456992 is a valid
+// constant): a constant that overflows it is an error, because an infinity
+// makes a later Inf - Inf panic in the big package.
+const maxFloatExp = big.MaxExp
 
 // makeFloatConst returns f as a constant. It returns an error if f is an
 // infinity or its exponent is too large, and zero if it is too small.
